@@ -85,7 +85,20 @@ func e2eRetransWorker(args []string) error {
 	curPlan := rtPlan{"kth", 1}
 	planMap := map[uint32]rtPlan{}
 	setCur := func(pl rtPlan) { pmu.Lock(); curPlan = pl; pmu.Unlock() }
-	planOf := func(seq uint32) rtPlan { pmu.Lock(); defer pmu.Unlock(); return planMap[seq] }
+	// the peer's reader records a request before it consults the policy: wait for the plan to be fixed
+	planOf := func(seq uint32) rtPlan {
+		for i := 0; ; i++ {
+			pmu.Lock()
+			pl, ok := planMap[seq]
+			pmu.Unlock()
+
+			if ok || i > 500 {
+				return pl
+			}
+
+			time.Sleep(time.Millisecond)
+		}
+	}
 	policy := func(d pfcpx.Dgram, nth int) []pfcpx.Answer {
 		pmu.Lock()
 		pl, ok := planMap[d.Seq]
@@ -183,6 +196,10 @@ func e2eRetransWorker(args []string) error {
 			}
 
 			pl := planOf(d.Seq)
+			if pl.mode == "" {
+				return fail("the scripted peer has no plan for sequence number %d", d.Seq)
+			}
+
 			time.Sleep(time.Duration(pl.k)*T + T/2) // the round is over half a time-out after its answer
 			w.Retrans(name, "hb", d.Seq, txOf(peer, d.Seq, message.MsgTypeHeartbeatRequest), pl.mode, pl.k, false, p.N, p.TMs)
 			sum.Stats["round_"+pl.mode]++
